@@ -159,7 +159,10 @@ theorem gen_args_eq_model (o : Obj K) (xo : Option (List K)) (dO : Option (List 
 
 theorem gen_init_flags_eq_model : Gen.gen_init_flags = initFlags := rfl
 
-theorem gen_solve_keywords_eq_model : Gen.gen_solve_keywords.take 10 = solveKeywords := by decide
+/-- the WHOLE keyword block of `solve`, in order: the ten state keywords of the model followed by the three minimiser
+    options (statement audit: was `.take 10 = solveKeywords`, which a keyword added after the tenth would not break). -/
+theorem gen_solve_keywords_eq_model :
+    Gen.gen_solve_keywords = solveKeywords ++ ["min_method", "min_options", "min_kwargs"] := by decide
 
 theorem gen_total_order_eq_model :
     Gen.gen_total_order = ["misfit_energy", "elastic_energy", "longrange_energy", "stress_energy", "nonlocal_energy", "surface_energy"] := by
